@@ -11,17 +11,20 @@ import Mathlib.Tactic.NormNum
   closed forms `routeLPs / routeGrades / routeCurves / routeCats`, `routeElev` = elevation obtained by
   walking the route's own elevation points, `contig` = the contiguity `ensure!`s.
 
-  Clauses (all for `extend … (Tpc.new par) route = .ok t`, most also from an arbitrary state):
+  Clauses (for `extend … (Tpc.new par) route = .ok t`; several also from an arbitrary state):
     2a  C06_linkpoints      link-point offsets = cumulative lengths, indices = the route, one dummy
     2b  C06_counts          `countsConsistent`, per-link counts;  C06_counts_preserved (any state)
     2e  C06_cats            catenary sections = shifted concatenation
-    3   C06_accept_iff, C06_ok_contig, C06_reject_first, C06_reject   contiguity / fake index
+    3   C06_accept_iff(_general), C06_ok_contig, C06_noncontig_not_ok,
+        C06_reject, C06_reject_first                      contiguity / fake index ⇒ `Err`
     2c  C06_grades, C06_grade_point, C06_elev, C06_elev_exists          grades and elevation
     2d  C06_curves, C06_curve_point, C06_curve_no_headings              curve coefficients
-    1   C06_extend_append, C06_partition, C06_inv                       any partition, invariant
-    4   extend_one_elev_counterexample, extend_append_counterexample    `LinkOK` is forced
-    +   C06_wrap_counterexample / C06_wrap_partial : the heading wrap-around formula is wrong for
-        heading changes below −REV/2 (finding).
+    1   C06_extend_append, C06_partition(_indep), C06_inv               any partition, invariant
+    4   extend_one_elev_counterexample, C06_counts_needs_LinkOK,
+        extend_append_counterexample, C06_extend_append_needs_hyp       `LinkOK` is forced
+    +   FINDING: C06_wrap_counterexample / C06_wrap_fails / C06_wrap_partial /
+        C06_wrap_route_counterexample — the heading wrap-around formula returns `|Δh|` instead of
+        `REV − |Δh|` for heading changes `Δh < −REV/2` (heading increasing through north).
 -/
 set_option linter.unusedSectionVars false
 set_option linter.unusedVariables false
@@ -267,69 +270,55 @@ theorem linked_iff (prev : Nat) (l : Link α) :
       (l.idxNext ≠ l.idxNextAlt ∨ l.idxNextAlt = 0) ∧ (l.idxPrev = prev ∨ l.idxPrevAlt = prev) := by
   simp [linked, and_assoc]
 
-/-- **C06 (3, acceptance).**  On a fresh path a resolved route of validated links is accepted exactly
-    when no index is fake, every consecutive pair passes the contiguity checks (`linked`: the previous
-    link is real, `idx_prev`/`idx_prev_alt` name it, and the `alt` entries are not duplicates) and the
-    speed-limit part (`add_speeds`, C02/C13) does not fail.  The first link of a fresh path is never
-    checked (the block only runs when `link_points.len() >= 2`). -/
+/-- **C06 (3, acceptance).**  On a fresh path a resolved (in-range) route is accepted exactly when
+    no index is fake, every consecutive pair passes the contiguity checks (`linked`: the previous link
+    is real, `idx_prev`/`idx_prev_alt` name it, and the `alt` entries are not duplicates) and the
+    speed-limit part (`add_speeds`, C02/C13; includes "a speed set is available") does not fail.
+    The first link of a fresh path is never checked (the block only runs when
+    `link_points.len() >= 2`).  No hypothesis on the links: loop 2 cannot fail after loop 1. -/
 def C06_accept_iff_statement : Prop :=
   ∀ (toU32 : α → Nat) (g : GeoConsts α) (net : List (Link α)) (par : TrainPar α)
     (route : List Nat) (links : List (Link α)),
-    Resolves net route links → (∀ l ∈ links, LinkOK l) →
+    Resolves net route links →
     ((∃ t, extend toU32 g net (Tpc.new par) route = .ok t) ↔
       (∀ i ∈ route, i ≠ 0) ∧ links.IsChain (fun a b => linked a.idxCurr b = true) ∧
       ∃ sp, routeSpeeds toU32 par [⟨0, par.tp.speedMax⟩] 0 links = .ok sp)
 
 theorem C06_accept_iff : C06_accept_iff_statement (α := α) := by
-  intro toU32 g net par route links hres hok
-  have key := fun t => extend_ok_iff toU32 g net route links (Tpc.new par) t []
-    ⟨0, 0, 0, 0, 0⟩ [] [] 0 0 0 0 0 hres hok rfl rfl rfl (by simp [Tpc.new])
+  intro toU32 g net par route links hres
+  have key := extend_accept_iff toU32 g net (Tpc.new par) route links [] ⟨0, 0, 0, 0, 0⟩ hres rfl
+    (by simp [Tpc.new]) (by simp [Tpc.new]) (by simp [Tpc.new])
   have hc : contig none links = true ↔ links.IsChain (fun a b => linked a.idxCurr b = true) := by
     rw [contig_iff]; simp [linkedOpt]
+  rw [key]
   constructor
-  · rintro ⟨t, h⟩
-    obtain ⟨h0, h1, sp, hsp, _⟩ := (key t).mp h
-    exact ⟨h0, hc.mp h1, sp, hsp⟩
-  · rintro ⟨h0, h1, sp, hsp⟩
-    exact ⟨_, (key _).mpr ⟨h0, hc.mpr h1, sp, hsp, rfl⟩⟩
+  · rintro ⟨h0, h1, h2⟩; exact ⟨h0, hc.mp h1, h2⟩
+  · rintro ⟨h0, h1, h2⟩; exact ⟨h0, hc.mpr h1, h2⟩
 
 example : (∀ i ∈ [1, 2, 3], i ≠ 0) ∧ Ex.links.IsChain (fun a b => linked a.idxCurr b = true) ∧
     ∃ sp, routeSpeeds Ex.u32 Ex.par [⟨0, Ex.par.tp.speedMax⟩] 0 Ex.links = .ok sp :=
-  (C06_accept_iff Ex.u32 Ex.gq Ex.net Ex.par [1, 2, 3] Ex.links Ex.res123 Ex.oklinks).mp Ex.ext123
+  (C06_accept_iff Ex.u32 Ex.gq Ex.net Ex.par [1, 2, 3] Ex.links Ex.res123).mp Ex.ext123
 
-/-- the same from any state whose profiles end at a common offset: the link in front of the first
-    new link is the one of the last real link point (`prevIdx`) -/
+/-- the same from any state with non-empty vectors: the link in front of the first new link is the one
+    of the last real link point (`prevIdx`), the speed part starts at the last link-point offset -/
 def C06_accept_iff_general_statement : Prop :=
   ∀ (toU32 : α → Nat) (g : GeoConsts α) (net : List (Link α)) (t : Tpc α)
     (route : List Nat) (links : List (Link α)),
-    Resolves net route links → (∀ l ∈ links, LinkOK l) → Inv t → t.speedPoints ≠ [] →
+    Resolves net route links →
+    -- forced: the four `ensure!`s at the top of `extend`
+    t.grades ≠ [] → t.curves ≠ [] → t.speedPoints ≠ [] →
     ∀ lastOff, t.linkPoints.getLast?.map (·.off) = some lastOff →
     ((∃ t', extend toU32 g net t route = .ok t') ↔
       (∀ i ∈ route, i ≠ 0) ∧ contig (prevIdx t.linkPoints) links = true ∧
       ∃ sp, routeSpeeds toU32 t.par t.speedPoints lastOff links = .ok sp)
 
 theorem C06_accept_iff_general : C06_accept_iff_general_statement (α := α) := by
-  intro toU32 g net t route links hres hok hinv hS lastOff hlast
-  obtain ⟨o, h1, h2, h3⟩ := hinv
-  obtain ⟨L, last, hL, rfl⟩ := getLast?_map_some h1
-  obtain ⟨G, gl, hG, hgo⟩ := getLast?_map_some h2
-  obtain ⟨C, cl, hC, hco⟩ := getLast?_map_some h3
-  have hlo : lastOff = last.off := by
-    rw [hL] at hlast; simpa using hlast.symm
-  subst hlo
-  have hG' : t.grades = G ++ [⟨last.off, gl.coeff, gl.net⟩] := by rw [hG, ← hgo]
-  have hC' : t.curves = C ++ [⟨last.off, cl.coeff, cl.net⟩] := by rw [hC, ← hco]
-  have key := fun t' => extend_ok_iff toU32 g net route links t t' L last G C last.off
-    gl.coeff gl.net cl.coeff cl.net hres hok hL hG' hC' hS
+  intro toU32 g net t route links hres hg hc hS lastOff hlast
+  obtain ⟨L, last, hL, rfl⟩ := getLast?_map_some hlast
   have hp : prevIdx t.linkPoints = L.getLast?.map (·.linkIdx) := by
     unfold prevIdx; rw [hL, List.dropLast_concat]
   rw [hp]
-  constructor
-  · rintro ⟨t', h⟩
-    obtain ⟨h0, h1, sp, hsp, _⟩ := (key t').mp h
-    exact ⟨h0, h1, sp, hsp⟩
-  · rintro ⟨h0, h1, sp, hsp⟩
-    exact ⟨_, (key _).mpr ⟨h0, h1, sp, hsp, rfl⟩⟩
+  exact extend_accept_iff toU32 g net t route links L last hres hL hg hc hS
 
 /-- **C06 (3, an accepted route is contiguous).**  No hypothesis on the links: if `extend` returns
     `Ok` then no route index is fake and every consecutive pair is linked — contrapositively a
@@ -762,14 +751,9 @@ example : ∃ t1, extend Ex.u32 Ex.gq Ex.net (Tpc.new Ex.par) [1] = .ok t1 ∧
       ∃ sp, routeSpeeds Ex.u32 t1.par t1.speedPoints 1000 [Ex.l2, Ex.l3] = .ok sp) := by
   obtain ⟨t1, h1, hp⟩ := okAnd_exists (r := extend Ex.u32 Ex.gq Ex.net (Tpc.new Ex.par) [1])
     (p := fun t => t.linkPoints.getLast?.map (·.off) == some 1000) (by decide +kernel)
-  have ok1 : ∀ l ∈ [Ex.l1], LinkOK l := fun l hl => by
-    rw [List.mem_singleton.mp hl]; exact Ex.ok1
-  have ok23 : ∀ l ∈ [Ex.l2, Ex.l3], LinkOK l := fun l hl => Ex.oklinks l (by
-    simp only [List.mem_cons, List.not_mem_nil, or_false] at hl
-    rcases hl with rfl | rfl <;> simp [Ex.links])
-  have inv1 : Inv t1 := C06_inv.2 _ _ _ _ [Ex.l1] _ t1 h1 rfl ok1 (C06_inv.1 _)
-  exact ⟨t1, h1, C06_accept_iff_general Ex.u32 Ex.gq Ex.net t1 [2, 3] [Ex.l2, Ex.l3] rfl ok23 inv1
-    (extend_ok_ne_nil _ _ _ h1).2.2.2 1000 (by simpa using hp)⟩
+  obtain ⟨_, n2, n3, n4⟩ := extend_ok_ne_nil _ _ _ h1
+  exact ⟨t1, h1, C06_accept_iff_general Ex.u32 Ex.gq Ex.net t1 [2, 3] [Ex.l2, Ex.l3] rfl n2 n3 n4
+    1000 (by simpa using hp)⟩
 
 end
 
